@@ -150,10 +150,16 @@ func runInproc(c IPCase) (fail string, classes []string) {
 				}
 			}()
 			<-start
+			// the embedding program keeps ONE message object and ONE topic / payload buffer per
+			// goroutine and rewrites them in place for every publish (its memory is its own
+			// again as soon as Server.Publish has returned)
+			m := message.NewPublishMessage()
+			var tbuf, pbuf []byte
 			for _, p := range list {
-				m := message.NewPublishMessage()
-				m.SetTopic([]byte(p.Topic))
-				m.SetPayload(append([]byte(nil), payloads[p.msgno]...))
+				tbuf = append(tbuf[:0], p.Topic...)
+				pbuf = append(pbuf[:0], payloads[p.msgno]...)
+				m.SetTopic(tbuf)
+				m.SetPayload(pbuf)
 				m.SetQoS(p.QoS)
 				if err := b.Srv.Publish(m); err != nil {
 					errs <- fmt.Sprintf("Server.Publish(%q): %v", p.Topic, err)
